@@ -9,7 +9,7 @@ TARGETS = ["Base/Num.vo", "C14/ER.vo", "C14/Model.vo", "C14/Spec.vo", "C14/Proof
            "C14/ProofsRegress.vo", "C14/VModel.vo", "C14/ProofsVec.vo",
            "C14/MixModel.vo", "C14/ProofsMix.vo", "C14/SkewModel.vo", "C14/ProofsSkew.vo", "C14/IWModel.vo", "C14/ProofsIW.vo",
            "C14/Corr2.vo", "C14/ProofsCdf3.vo", "C14/MixParam.vo", "C14/ProofsMixParam.vo", "C14/ProofsMixParam2.vo", "C14/CorrP.vo",
-           "C14/CorrS.vo", "C14/ProofsPdf.vo", "C14/ProofsNorm3.vo", "C14/Props.vo"]
+           "C14/CorrS.vo", "C14/ProofsPdf.vo", "C14/ProofsNorm3.vo", "C14/ProofsVid.vo", "C14/ProofsPoint.vo", "C14/Props.vo"]
 PROPS = ["C14/Props.v"]
 PARTIAL = ("Theorems are over exact real arithmetic extended by +Inf/-Inf/NaN (coq/C14/ER.v); rounding, overflow and "
            "signed zeros of binary64 are not modelled; the step to binary64 is bounded per sampled case by the "
@@ -23,7 +23,10 @@ PARTIAL = ("Theorems are over exact real arithmetic extended by +Inf/-Inf/NaN (c
            "Pdf / Cdf method is re-read from the source each run and compared in Coq with the table the dispatcher is proved to obey); "
            "overflow / underflow of exp in binary64 is outside the exact-real model (points where LogPdf overflows are not sampled); "
            "the Pdf of LogisticRegression and the HMM / mixture types have no Pdf or are not modelled; gamma Mean, normal "
-           "MagicLogCdf, vector normal Mean / Variance / EllipticCdf and the NIW marginals are not modelled. Vector families (t, normal, ScalarIid, ScalarId) "
+           "MagicLogCdf, vector normal Mean / Variance / EllipticCdf and the NIW marginals are not modelled. Point masses at boundary parameters "
+           "(negative binomial p = 0, binomial theta = 0 / 1, geometric p = 1) are proved with the hypothesis lgam 1 = 0; negative binomial p = 1 "
+           "is accepted with total mass 0 (finding). VectorId (blocks of different dimensions) is proved over abstract components and tied "
+           "over ScalarIid blocks only; matrixDistribution.VectorId.LogPdf is not modelled. Vector families (t, normal, ScalarIid, ScalarId, VectorId) "
            "are modelled with the inverse and determinant of Sigma entering as logged data (SigmaInv / SigmaDet fields; "
            "matrixInverse / determinant are other properties' business); the same holds for the skew normal (kappa = "
            "diag(s) omega diag(s): Normal1.SigmaInv / SigmaDet; Phi through the Section hypotheses lerfc = ln erfc, erfc > 0), "
